@@ -69,6 +69,51 @@ def segs_of(yp, enc):
     return "(%s)" % " ".join(out)
 
 
+def py_seg_child(cur, t, a):
+    """(found, child): one segment read at a node, as C09create.seg_child reads it."""
+    from yamlpath.enums import PathSegmentTypes
+    if isinstance(cur, dict):
+        if t is PathSegmentTypes.KEY:
+            for k, v in cur.items():
+                if isinstance(k, str) and str.__str__(k) == a:
+                    return True, v
+        return False, None
+    if isinstance(cur, list):
+        if t is PathSegmentTypes.INDEX:
+            z = a
+        else:
+            try:
+                z = int(a)
+            except ValueError:
+                return False, None
+        if z < 0:
+            z += len(cur)
+        if 0 <= z < len(cur):
+            return True, cur[z]
+        return False, None
+    if mutgen.is_set(cur):
+        if t is PathSegmentTypes.KEY:
+            for m in cur:
+                if isinstance(m, str) and str.__str__(m) == a:
+                    return True, m
+        return False, None
+    return False, None
+
+
+def py_creates(data, escaped):
+    """The guard of the document-level theorems (C09create.creates), computed on the loaded document: something
+    is to be created, no null on the existing prefix (F10b), the tail does not start below a set (F25)."""
+    cur = data
+    for (t, a) in escaped:
+        found, child = py_seg_child(cur, t, a)
+        if not found:
+            return not mutgen.is_set(cur)
+        if child is None:
+            return False
+        cur = child
+    return False
+
+
 def run_case(case):
     if case in _CACHE:
         return _CACHE[case]
@@ -91,6 +136,8 @@ def run_case(case):
         rec["why"] = "not-straight"
         return rec
     shadow = mutgen.Shadow(data)
+    rec["guard"] = py_creates(data, yp.escaped)
+    rec["guard_request"] = "(create-guard %s %s)" % (before, segs)
     p = E["Processor"](E["log"], data)
     vo = enc.oids.get(id(value)) if (value is None or isinstance(value, (str, int, float))) else None
     exc = None
@@ -222,16 +269,17 @@ def resolves(rec, case):
 
 def requests(case):
     rec = run_case(case)
-    return [rec["request"]] if rec["kind"] == "run" else ["(mut-skip)"]
+    return [rec["request"], rec["guard_request"]] if rec["kind"] == "run" else ["(mut-skip)"]
 
 
 def observe(case):
     rec = run_case(case)
     if rec["kind"] != "run":
         return ["(skip)"]
+    g = "(%s)" % ("true" if rec["guard"] else "false")
     if rec["exc"] is None:
-        return ["(done %s)" % rec["after"]]
-    return ["(failed %s %s)" % (family(rec["exc"]), rec["after"])]
+        return ["(done %s)" % rec["after"], g]
+    return ["(failed %s %s)" % (family(rec["exc"]), rec["after"]), g]
 
 
 def judge(case, obs):
@@ -245,8 +293,8 @@ def classify(case, obs):
     rec = run_case(case)
     if rec["kind"] != "run":
         return "skip:" + str(rec["why"])
-    return "%s:%s:%s" % (case[4], "created" if rec.get("created") else "same",
-                         "ok" if rec["exc"] is None else family(rec["exc"]))
+    return "%s:%s:%s%s" % (case[4], "created" if rec.get("created") else "same",
+                           "ok" if rec["exc"] is None else family(rec["exc"]), ":guard" if rec.get("guard") else "")
 
 
 def nontrivial(case, obs):
